@@ -54,7 +54,7 @@ def budget(tier):
 
 
 def wall_cap(tier):
-    return 240 if tier == "quick" else 1500
+    return 240 if tier == "quick" else 600
 
 
 # -- generation ---------------------------------------------------------------------------------
